@@ -69,6 +69,8 @@ def hosvd(  # noqa: PLR0912,PLR0913,PLR0915
             "Ranks must be a sequence of length tensor ndims."
             f" Ndims: {d} but got ranks: {ranks}."
         )
+    if np.any(np.array(ranks) < 0):
+        raise ValueError(f"Ranks: {ranks} cannot be negative.")
     if np.any(np.array(ranks) > np.array(input_tensor.shape)):
         raise ValueError(
             f"Ranks: {ranks} cannot exceed the tensor shape: {input_tensor.shape}."
